@@ -365,6 +365,8 @@ def e_series_assign(c):
     o.arr(sf.Series(c.a, index=IDX).assign.iloc[1](c.e).values, [A[0], c.e, A[2]], 'iloc[1]')
     o.arr(sf.Series(c.a, index=IDX).assign.loc['c'](c.e).values, [A[0], A[1], c.e], "loc['c']")
     o.arr(sf.Series(c.a, index=IDX).assign.iloc[:2](c.e).values, [c.e, c.e, A[2]], 'iloc[:2]')
+    # a Series value that lacks a targeted label: the caller's fill_value is stored there
+    o.arr(sf.Series(c.a, index=IDX).assign.loc[['b', 'c']](sf.Series(c.a[[0]], index=['c']), fill_value=c.e).values, [A[0], c.e, A[0]], "loc[['b','c']](Series lacking 'b', fill_value)")
     return o
 
 
@@ -389,6 +391,11 @@ def e_frame_assign_column(c):
     f = mk_frame(c.a, c.lay).assign['y'](c.e)
     o.arr(fcol(f, 2), [c.e] * 3, "['y']")
     _untouched_frame(o, f, c.a, skip=('y',))
+    import static_frame as sf
+    f = mk_frame(c.a, c.lay).assign.loc[:, 'x'](sf.Series(c.a[[0]], index=['c']), fill_value=c.e)
+    o.merged.append(c.a.dtype)      # here the value Series (kind A) and the fill element are merged
+    o.arr(fcol(f, 0), [c.e, c.e, elems(c.a)[0]], "loc[:, 'x'](Series lacking rows, fill_value)")
+    _untouched_frame(o, f, c.a, skip=('x',))
     return o
 
 
@@ -768,6 +775,15 @@ def r_frame_overlay(c):
     o.arr(fcol(f, cols.index('x')), [exp[i] for i in perm], 'Frame.from_overlay:x')
     ycol = fcol(f, cols.index('y'))
     o.arr(ycol, [Y[i] for i in perm], 'Frame.from_overlay:y').dtype(ycol.dtype, Y.dtype, 'column y')
+    # the earlier frame holds w, x in ONE consolidated block; the later frame supplies kind A for w and kind B for x
+    g1 = sf.Frame.from_items([('w', c.a), ('x', c.a)], index=IDX, consolidate_blocks=True)
+    g2 = sf.Frame.from_items([('w', c.a), ('x', c.b)], index=IDX)
+    g = sf.Frame.from_overlay((g1, g2))
+    gcols = list(g.columns.values)
+    gperm = [IDX.index(r) for r in g.index.values]
+    o.arr(fcol(g, gcols.index('x')), [exp[i] for i in gperm], 'Frame.from_overlay(2D block):x')
+    A = elems(c.a)
+    o.arr(fcol(g, gcols.index('w')), [A[i] for i in gperm], 'Frame.from_overlay(2D block):w')
     return o
 
 
